@@ -17,6 +17,7 @@ import CE.Cte.ArrFmt
 import CE.Cte.Lit
 import CE.Cte.ArrEngine
 import CE.Marshal.Struct
+import CE.Marshal.Graph
 /-
   Line-protocol driver: executes the model's definitions on the operations the Go
   harness ran on the implementation.  Input line:  kind \t id \t op \t arg... \t => \t expected
@@ -400,8 +401,35 @@ def structLookup (args : List String) : String :=
     | none => "-1"
   | _ => "BADINPUT"
 
+def parseOptNat (s : String) : Option (Option Nat) :=
+  if s == "-1" then some none else s.toNat?.map some
+
+/-- GRAPH.EMIT root cells(next,alt|kids… ; per node, kids "-" = nil slice) → abstract event text -/
+def graphEmit (args : List String) : String :=
+  match args with
+  | [root, cells] =>
+    let parsed : Option (List Marshal.Graph.Cell) := (cells.splitOn ";").mapM fun c =>
+      match c.splitOn "|" with
+      | [ps, ks] =>
+        match (ps.splitOn ",").mapM parseOptNat with
+        | none => none
+        | some ptrs =>
+          if ks == "-" then some { ptrs := ptrs, kids := none }
+          else if ks == "" then some { ptrs := ptrs, kids := some [] }
+          else ((ks.splitOn ",").mapM parseOptNat).map fun k => { ptrs := ptrs, kids := some k }
+      | _ => none
+    match root.toNat?, parsed with
+    | some r, some cs =>
+      let h : Marshal.Graph.Heap := fun i => cs.getD i {}
+      let fuel := 8 * (cs.length + 1) * (cs.length + 8) + 64
+      match Marshal.Graph.emitRoot h fuel r with
+      | some out => String.intercalate " " (out.map Marshal.Graph.GEv.text)
+      | none => "NOFUEL"
+    | _, _ => "BADINPUT"
+  | _ => "BADINPUT"
+
 def ops : List (String × (List String → String)) :=
-  [("CBE.ENC", cbeEnc), ("CBE.DEC", cbeDec), ("CANON.EQ", canonEq), ("RULES", rulesOp), ("WF.REL", wfRel), ("FWD.EQ", fwdEq), ("MEASURE", measureOp), ("CBE.MINLEN", minLenOp), ("API.DETECT", apiDetect), ("API.VERSION", apiVersion), ("READER.ALL", readerAll), ("READER.FAULT", readerFault), ("TREE.EQ", treeEq), ("ARR.TOLE", arrToLE), ("ARR.FROMLE", arrFromLE), ("CONV", convOp), ("CTE.ARRFMT", cteArrFmt), ("CTE.ARRPARSE", cteArrParse), ("CTE.ENGINE", cteEngine), ("STRUCT.EMIT", structEmit), ("STRUCT.LOOKUP", structLookup), ("LIT.NUM", litNum), ("LIT.ELEM", litElem), ("LIT.STR", litStr)]
+  [("CBE.ENC", cbeEnc), ("CBE.DEC", cbeDec), ("CANON.EQ", canonEq), ("RULES", rulesOp), ("WF.REL", wfRel), ("FWD.EQ", fwdEq), ("MEASURE", measureOp), ("CBE.MINLEN", minLenOp), ("API.DETECT", apiDetect), ("API.VERSION", apiVersion), ("READER.ALL", readerAll), ("READER.FAULT", readerFault), ("TREE.EQ", treeEq), ("ARR.TOLE", arrToLE), ("ARR.FROMLE", arrFromLE), ("CONV", convOp), ("CTE.ARRFMT", cteArrFmt), ("CTE.ARRPARSE", cteArrParse), ("CTE.ENGINE", cteEngine), ("GRAPH.EMIT", graphEmit), ("STRUCT.EMIT", structEmit), ("STRUCT.LOOKUP", structLookup), ("LIT.NUM", litNum), ("LIT.ELEM", litElem), ("LIT.STR", litStr)]
 
 def splitArrow : List String → List String × String
   | [] => ([], "")
